@@ -8,6 +8,9 @@
 -/
 import Proofs.Veto
 import Proofs.Dispatch
+import Proofs.ReadOnly
+import Proofs.CtxUser
+import Properties.C12
 
 namespace AuthbossModel.M
 attribute [local irreducible] Frame Lic
@@ -108,5 +111,291 @@ theorem C02_sms_verdict_ignores_user (u v : User) (c : Ctx) (hr : c.req.rcode = 
   cases c.sess.get .smsSecret with
   | none => simp [M.fail, M.stop]
   | some code => by_cases h : code.isEmpty = true <;> simp [h, M.fail, M.stop, pure_apply]
+
+
+/-! ### The SMS hijacker, and any load order -/
+
+/-- `sms2fa.HijackAuth` takes over (or fails) when nobody has yet and the account has a number. -/
+theorem smsHijack_vetoes (c : Ctx) (h : HasSms c) : Vetoes (smsHijack false) c := by
+  obtain ⟨u, hu, hs⟩ := h
+  intro c' he
+  unfold smsHijack at he
+  simp only [Bool.false_eq_true, if_false, bind_apply, M.get, hu] at he
+  have hne : u.smsNumber.isEmpty = false := by
+    cases h : u.smsNumber.isEmpty
+    · rfl
+    · exact absurd (List.isEmpty_iff.mp h) hs
+  simp only [hne, Bool.false_eq_true, if_false, bind_apply, M.putS, M.act, M.modify] at he
+  generalize M.smsSendCode _ _ _ = rr at he
+  obtain ⟨res, c1⟩ := rr
+  cases res with
+  | stop s => simp at he
+  | ok r =>
+    cases r <;> simp only [M.fail, M.stop, bind_apply] at he
+    all_goals first
+      | (simp at he; done)
+      | (generalize M.redirect _ _ _ _ _ = r2 at he
+         obtain ⟨res2, c2⟩ := r2
+         cases res2 <;> simp [pure_apply] at he)
+
+/-- **C02_sms_parks.** Same for the SMS unit at the head of the hijackers. -/
+theorem C02_sms_parks (c : Ctx) (h : HasSms c) (hs : List EvHandler) :
+    Vetoes (callHandlers (smsHijack :: hs) false) c := by
+  intro c' he
+  unfold callHandlers at he
+  rw [bind_apply] at he
+  generalize hr : smsHijack false c = r at he
+  obtain ⟨res, c1⟩ := r
+  cases res with
+  | stop s => simp at he
+  | ok i =>
+    have : i = true := by
+      cases i
+      · exact absurd hr (smsHijack_vetoes c h c1)
+      · rfl
+    subst this
+    exact callHandlers_true hs c1 c' (by simpa using he)
+
+
+/-- A hijack chain: a handler that takes over when reached with "not handled yet" makes the
+whole chain report "handled", wherever it sits. -/
+theorem hijack_chain (J : Ctx → Prop) (hs : List EvHandler)
+    (hkeep : ∀ h ∈ hs, ∀ b c, J c → ∀ r c', h b c = (.ok r, c') → J c')
+    (hveto : ∃ h ∈ hs, ∀ c, J c → Vetoes (h false) c) :
+    ∀ c, J c → Vetoes (callHandlers hs false) c := by
+  induction hs with
+  | nil => obtain ⟨h, hm, _⟩ := hveto; cases hm
+  | cons h hs ih =>
+    intro c hj c' he
+    unfold callHandlers at he
+    rw [bind_apply] at he
+    generalize hr : h false c = r at he
+    obtain ⟨res, c1⟩ := r
+    cases res with
+    | stop s => simp at he
+    | ok i =>
+      have hj1 : J c1 := hkeep h (by simp) false c hj i c1 hr
+      cases i with
+      | true => exact callHandlers_true hs c1 c' (by simpa using he)
+      | false =>
+        obtain ⟨hv, hvm, hvv⟩ := hveto
+        rcases List.mem_cons.mp hvm with rfl | hin
+        · exact absurd hr (hvv c hj c1)
+        · exact ih (fun h' hm => hkeep h' (by simp [hm])) ⟨hv, hin, hvv⟩ c1 hj1 c' (by simpa using he)
+
+/-- **C02_parks_any_order.** Whatever else is loaded and in whatever order: with the totp unit
+loaded and a TOTP secret on the account (or the sms unit and a number), `Before(EventAuthHijack)`
+never reports "not handled" — the primary login stops and the session identity is not written. -/
+theorem C02_parks_any_order (c : Ctx)
+    (h : (c.cfg.has .totp = true ∧ HasTotp c) ∨ (c.cfg.has .sms = true ∧ HasSms c)) :
+    Vetoes (fireBefore .authHijack) c := by
+  intro c' he
+  unfold fireBefore at he
+  simp only [bind_apply, M.get] at he
+  have hk : ∀ (J : Ctx → Prop), (∀ c c', c'.ctxUser = c.ctxUser → J c → J c') →
+      ∀ h ∈ c.cfg.units.flatMap (·.before .authHijack), ∀ b c0, J c0 → ∀ r c1, h b c0 = (.ok r, c1) → J c1 := by
+    intro J hJ h hm b c0 hj r c1 hr
+    obtain ⟨u, _, hu⟩ := List.mem_flatMap.mp hm
+    rcases hijack_handlers u h hu with rfl | rfl
+    · have := CU.totpHijack b c0; rw [hr] at this; exact hJ _ _ this hj
+    · have := CU.smsHijack b c0; rw [hr] at this; exact hJ _ _ this hj
+  rcases h with ⟨hl, ht⟩ | ⟨hl, ht⟩
+  · refine hijack_chain HasTotp _ (hk HasTotp ?_) ?_ c ht c' he
+    · intro c0 c1 he ⟨u, hu, hs⟩; exact ⟨u, he.trans hu, hs⟩
+    · refine ⟨totpHijack, List.mem_flatMap.mpr ⟨.totp, by simpa [Config.has] using hl, by simp [Unit.before]⟩, ?_⟩
+      intro c0 hj; exact totpHijack_vetoes c0 hj
+  · refine hijack_chain HasSms _ (hk HasSms ?_) ?_ c ht c' he
+    · intro c0 c1 he ⟨u, hu, hs⟩; exact ⟨u, he.trans hu, hs⟩
+    · refine ⟨smsHijack, List.mem_flatMap.mpr ⟨.sms, by simpa [Config.has] using hl, by simp [Unit.before]⟩, ?_⟩
+      intro c0 hj; exact smsHijack_vetoes c0 hj
+
+
+/-! ### What a successful second-factor verification means -/
+
+attribute [local irreducible] Ret Post
+
+set_option maxHeartbeats 4000000 in
+/-- **C02_totp_success_means.** `totpValidate` reports success only for the user `u0` that the
+pending key (or the current session) resolves to, only if that user has TOTP enabled, and only
+if the submitted code is valid *for that user's secret* (no recovery code submitted) or the
+submitted recovery code is one of *that user's* stored codes. -/
+theorem C02_totp_success_means (c0 : Ctx) :
+    Ret (fun r _ => ∀ u, r = some (u, TotpStatus.success) →
+          ∃ (u0 : User) (c1 : Ctx), tfaUser .totpPending c0 = (.ok (.found u0), c1) ∧ u.pid = u0.pid ∧
+            u0.totpSecret ≠ [] ∧
+            (c0.req.rcode = [] → c0.req.totpOk.contains u0.totpSecret = true) ∧
+            (c0.req.rcode ≠ [] → c0.req.rcode ∈ u0.recCodes))
+      totpValidate c0 := by
+  unfold totpValidate
+  ret_auto
+  all_goals (unfold Post; intro u hu)
+  all_goals first
+    | (simp at hu; done)
+    | skip
+  all_goals (
+    have ht := ‹tfaUser SKey.totpPending c0 = _›
+    have hg := ‹M.get _ = (Res.ok _, _)›
+    obtain ⟨rfl, rfl⟩ := get_ok hg
+    have hq := (RO.tfaUser SKey.totpPending c0).1
+    rw [ht] at hq
+    simp only at hq
+    have hsec := ‹¬List.isEmpty _ = true›
+    refine ⟨_, _, ht, ?_, ?_, ?_, ?_⟩
+    · simp at hu; rw [← hu]
+    · intro h0; apply hsec; simp [h0]
+    · intro hr
+      first
+        | (exfalso
+           have hn := ‹(!List.isEmpty _) = true›
+           rw [hq, hr] at hn
+           simp at hn)
+        | (have hok := ‹¬(!List.contains _ _) = true›
+           rw [hq] at hok
+           simpa using hok)
+    · intro hr
+      first
+        | (have hu' := ‹useRecoveryCode _ _ = some _›
+           rw [hq] at hu'
+           exact (C12_recovery_removes_one _ _ _ hu').1)
+        | (exfalso
+           have hn := ‹¬(!List.isEmpty _) = true›
+           rw [hq] at hn
+           simp at hn
+           exact hr hn))
+
+/-- `SS h`: `h` changes neither storage nor what the request sees of the session. -/
+def SS {α} (h : H α) : Prop := ∀ c, (h c).2.store = c.store ∧ (h c).2.sess = c.sess ∧ (h c).2.ctxPid = c.ctxPid
+theorem SS.pure {α} (a : α) : SS (Pure.pure a : H α) := fun _ => ⟨rfl, rfl, rfl⟩
+theorem SS.get : SS M.get := fun _ => ⟨rfl, rfl, rfl⟩
+theorem SS.backend : SS M.backend := fun _ => ⟨rfl, rfl, rfl⟩
+theorem SS.bind {α β} {m : H α} {f : α → H β} (hm : SS m) (hf : ∀ a, SS (f a)) : SS (m >>= f) := by
+  intro c
+  rw [bind_apply]
+  have h1 := hm c
+  generalize m c = r at h1
+  obtain ⟨res, c'⟩ := r
+  cases res with
+  | ok a => have h2 := hf a c'; exact ⟨h2.1.trans h1.1, h2.2.1.trans h1.2.1, h2.2.2.trans h1.2.2⟩
+  | stop s => exact h1
+theorem SS.ite {α} {b : Prop} [Decidable b] {x y : H α} (hx : SS x) (hy : SS y) : SS (if b then x else y) := by
+  by_cases h : b <;> simp [h] <;> assumption
+theorem SS.load (p) : SS (M.load p) := by
+  unfold M.load
+  repeat' (first | exact SS.pure _ | exact SS.get | exact SS.backend | apply SS.ite | apply SS.bind | split | intro _)
+theorem SS.currentUserID : SS M.currentUserID := by
+  unfold M.currentUserID
+  repeat' (first | exact SS.pure _ | exact SS.get | apply SS.bind | split | intro _)
+
+theorem currentUserID_eq (c : Ctx) :
+    M.currentUserID c = (.ok (match c.ctxPid with | some p => p | none => (c.sess.get .uid).getD []), c) := by
+  unfold M.currentUserID
+  simp only [bind_apply, M.get]
+  cases c.ctxPid <;> simp [pure_apply]
+
+/-- With no user in the request context, `currentUser` is the stored record of the session's identity. -/
+theorem currentUser_found_none {c : Ctx} {v : User} {cA : Ctx} (hcu : c.ctxUser = none)
+    (h : M.currentUser c = (.ok (.found v), cA)) :
+    ∃ pid, (c.ctxPid = some pid ∨ (c.ctxPid = none ∧ c.sess.get .uid = some pid)) ∧ c.store.find pid = some v := by
+  unfold M.currentUser at h
+  simp only [bind_apply, M.get, hcu, currentUserID_eq] at h
+  cases hp : c.ctxPid with
+  | some p =>
+    simp only [hp] at h
+    by_cases he : p.isEmpty = true
+    · simp [he, pure_apply] at h
+    · simp only [he, if_false] at h
+      exact ⟨p, Or.inl rfl, (load_found h).1⟩
+  | none =>
+    simp only [hp] at h
+    cases hs : c.sess.get .uid with
+    | none => simp [hs, pure_apply] at h
+    | some p =>
+      simp only [hs, Option.getD_some] at h
+      by_cases he : p.isEmpty = true
+      · simp [he, pure_apply] at h
+      · simp only [he, if_false] at h
+        exact ⟨p, Or.inr ⟨rfl, rfl⟩, (load_found h).1⟩
+
+theorem SS.currentUser : SS M.currentUser := by
+  unfold M.currentUser
+  have := SS.currentUserID; have := SS.load
+  repeat' (first | exact SS.pure _ | exact SS.get | assumption | apply SS.ite | apply SS.bind | split | intro _)
+
+/-- Who `tfaUser` resolves to: the user already in the request context, or the stored record
+of the session's identity, or — only when there is none — the stored record of the pending key. -/
+theorem tfaUser_found (k : SKey) (c : Ctx) (u : User) (c1 : Ctx)
+    (h : tfaUser k c = (.ok (.found u), c1)) :
+    c.ctxUser = some u ∨
+    (∃ pid, (c.ctxPid = some pid ∨ (c.ctxPid = none ∧ c.sess.get .uid = some pid)) ∧ c.store.find pid = some u) ∨
+    (∃ pid, c.sess.get k = some pid ∧ c.store.find pid = some u) := by
+  unfold tfaUser at h
+  rw [bind_apply] at h
+  have hss := SS.currentUser c
+  generalize hr0 : M.currentUser c = r0 at h hss
+  obtain ⟨res0, cA⟩ := r0
+  cases res0 with
+  | stop s => simp at h
+  | ok a =>
+    cases a with
+    | found v =>
+      simp [pure_apply] at h
+      obtain ⟨rfl, _⟩ := h
+      cases hcu : c.ctxUser with
+      | some w =>
+        left
+        have := currentUser_ctx hcu
+        rw [this] at hr0
+        simp at hr0
+        rw [hr0.1]
+      | none => exact Or.inr (Or.inl (currentUser_found_none hcu hr0))
+    | error => simp [pure_apply] at h
+    | notFound =>
+      simp only [bind_apply, M.get] at h
+      right; right
+      simp only at hss
+      cases hk : cA.sess.get k with
+      | none => simp [hk, pure_apply] at h
+      | some pid =>
+        simp only [hk] at h
+        by_cases he : pid.isEmpty = true
+        · simp [he, pure_apply] at h
+        · simp only [he, if_false] at h
+          refine ⟨pid, ?_, ?_⟩
+          · rw [← hss.2.1]; exact hk
+          · rw [← hss.1]; exact (load_found h).1
+set_option maxHeartbeats 4000000 in
+/-- **C02_sms_success_means.** `smsVerdict` accepts only a recovery code stored for *that user*
+(outside enrolment), or the code currently held in the session — the latter is not tied to
+the user (known finding F9, `C02_sms_verdict_ignores_user`). -/
+theorem C02_sms_success_means (pg : SmsPage) (u : User) (c0 : Ctx) :
+    Ret (fun r _ => ∀ u', r = (u', true) →
+          u'.pid = u.pid ∧
+          ((c0.req.rcode ≠ [] ∧ pg ≠ .confirm ∧ c0.req.rcode ∈ u.recCodes) ∨
+           (∃ code, c0.sess.get .smsSecret = some code ∧ code ≠ [] ∧ c0.req.code = code)))
+      (smsVerdict pg u) c0 := by
+  unfold smsVerdict
+  ret_auto
+  all_goals (unfold Post; intro u' hu)
+  all_goals (
+    have hg := ‹M.get _ = (Res.ok _, _)›
+    obtain ⟨rfl, rfl⟩ := get_ok hg)
+  all_goals first
+    | (simp at hu; done)
+    | skip
+  all_goals (
+    refine ⟨by simp at hu; first | rw [← hu] | rw [← hu.1], ?_⟩
+    first
+      | (left
+         have hc := ‹(!List.isEmpty _ && _) = true›
+         have hu2 := ‹useRecoveryCode _ _ = some _›
+         simp at hc
+         exact ⟨hc.1, hc.2, (C12_recovery_removes_one _ _ _ hu2).1⟩)
+      | (right
+         have hs := ‹c0.sess.get SKey.smsSecret = some _›
+         have hne := ‹¬List.isEmpty _ = true›
+         refine ⟨_, hs, ?_, ?_⟩
+         · intro h0; apply hne; simp [h0]
+         · simp at hu; exact hu.2))
+
 
 end AuthbossModel.M
